@@ -202,7 +202,8 @@ def check(prop: str, tier: str, seed: int, cap: int = 0) -> int:
 
     conformance = design_trace.check_h1(jobs, traces)
     conformance2 = design_trace.check_h2(jobs, traces)
-    for name, conf in (("H1Conn", conformance), ("H2Conn", conformance2)):
+    conformance3 = design_trace.check_ws(jobs, traces)
+    for name, conf in (("H1Conn", conformance), ("H2Conn", conformance2), ("WSock", conformance3)):
         for d in conf["drift"][:5]:
             print("DESIGN-DRIFT: %s does not explain an execution (family %s, worker %s): %d of %d events matched, next %s"
                   % (name, d["family"], d["worker"], d["matched_events"], d["of"], json.dumps(d["next_event"])))
@@ -254,13 +255,16 @@ def check(prop: str, tier: str, seed: int, cap: int = 0) -> int:
             "design_model_checking": mc_stats,
             "design_deviation_counterexamples": dev_stats,
             "design_trace_conformance": {
-                "spec": "spec/TraceH1.tla, spec/TraceH2.tla (H1Conn / H2Conn with Dev = CodeDev, logged stimuli and "
-                        "observations, silent ServerNext steps, quiescence and agreement at every settle point)",
-                "executions_checked": conformance["checked"] + conformance2["checked"],
-                "accepted_as_design_behaviours": conformance["accepted"] + conformance2["accepted"],
+                "spec": "spec/TraceH1.tla, spec/TraceH2.tla, spec/TraceWS.tla (H1Conn / H2Conn with Dev = CodeDev, WSock "
+                        "with Dev = {}; logged stimuli and observations, silent ServerNext steps, quiescence and "
+                        "agreement at every settle point)",
+                "executions_checked": conformance["checked"] + conformance2["checked"] + conformance3["checked"],
+                "accepted_as_design_behaviours": conformance["accepted"] + conformance2["accepted"] + conformance3["accepted"],
                 "h1": {"checked": conformance["checked"], "accepted": conformance["accepted"]},
                 "h2": {"checked": conformance2["checked"], "accepted": conformance2["accepted"]},
-                "drift": [{k: v for k, v in d.items() if k != "job"} for d in (conformance["drift"] + conformance2["drift"])[:20]],
+                "ws": {"checked": conformance3["checked"], "accepted": conformance3["accepted"]},
+                "drift": [{k: v for k, v in d.items() if k != "job"}
+                          for d in (conformance["drift"] + conformance2["drift"] + conformance3["drift"])[:20]],
                 "note": "advisory: design drift never decides the property",
             },
             "stimulus_families": len(fams),
